@@ -85,19 +85,21 @@ def defaults(h):
     h.oblige("RETRY_CONNECTED: no retry, one second", And(h.attr(pol, "max_retries") == 0, h.eq(h.attr(pol, "max_lifetime"), 1.0)))
 
 
-@oset("heartbeat._heartbeat_timeout_loop", ["C08"], [M + "_heartbeat_timeout_loop"],
-      trusted=["asyncio.timeout / Timeout.reschedule / Event.wait as modelled in pyvc/aio.py (deadline semantics)"])
-def timeout_loop(h):
-    if not h.symbolic:
-        from replay.hb_scenarios import run_library
-        return run_library(h)
+def install_deadline_loop(h, w, F, T, ev):
+    """Loop contracts for the pattern
+           while True:
+               try:
+                   async with asyncio.timeout(<T>) as timeout:
+                       while True:
+                           await <event>.wait(); timeout.reschedule(loop.time() + <T>); <event>.clear()
+               except TimeoutError: <handler>
+    on function F.  Obligations (stated here): the deadline is armed at entry (when == now + T), a
+    response moves it to exactly (response time + T) in the same step and clears the flag.
+    The caller runs F and inspects the events ("deadline", when) / handler effects."""
     it = h.it
-    w, sock, cfg, mgr, msg, matcher, _ = _manager(h)
-    T = h.attr(cfg, "timeout")
-    ev = h.attr(mgr, "_response_received")
     ev.flag = h.bool("flag0")
-    waits = []
-    ghost = {"L": None, "cm": None}
+    ghost = {"L": None}
+    state = {"outer": 0}
 
     def cur_timeout():
         st = it.path.ghost.get("timeouts", [])
@@ -105,8 +107,6 @@ def timeout_loop(h):
 
     def wait_hook(it2, event):
         cm = cur_timeout()
-        now0 = aio.now(it2)
-        waits.append((cm, cm.when if cm is not None else None, now0, ghost["L"]))
         if it2.path.branch(event.flag) if not isinstance(event.flag, bool) else event.flag:
             return True  # already set: no suspension
         aio.suspend(it2, ("event.wait",))
@@ -123,13 +123,11 @@ def timeout_loop(h):
             event.flag = True
             it2.path.event("woken", now1)
             return True
-        # the deadline is reached first
-        it2.path.assume(h.eq(now1, when))
+        it2.path.assume(h.eq(now1, when))  # the deadline is reached first
         it2.path.event("deadline", when)
         raise it2.exc("TimeoutError")
 
     it.event_wait_hook = wait_hook
-    state = {"outer": 0, "inner": 0}
 
     def outer_hook(it2, node, env):
         # one arbitrary monitoring cycle: any clock value, any flag, any connection state
@@ -156,19 +154,30 @@ def timeout_loop(h):
             cm.when = L + T
         ev.flag = h.bool("flag_k")
         it2.exec_block(node.body, env)
-        # a response was processed
-        t_r = aio.now(it2)
+        t_r = aio.now(it2)  # a response was processed
         h.oblige("a response pushes the deadline to exactly (time of the response + timeout)",
                  And(cm is not None, h.eq(cm.when, t_r + T) if cm is not None and cm.when is not None else False), kind="loop-preserve")
         h.oblige("the response flag is cleared for the next wait", h.eq(ev.flag, False), kind="loop-preserve")
+        li = _last_index(it2.path.events, "woken")
         h.oblige("the deadline is re-armed in the same step in which the response is seen (no suspension in between)",
-                 not any(e[0] == "suspend" for e in it2.path.events[_last_index(it2.path.events, "woken"):]) if _last_index(it2.path.events, "woken") >= 0 else True,
-                 kind="loop-preserve")
+                 not any(e[0] == "suspend" for e in it2.path.events[li:]) if li >= 0 else True, kind="loop-preserve")
         raise PathEnd()
 
-    F = M + "_heartbeat_timeout_loop"
     it.loop_hooks[(F, 0)] = outer_hook
     it.loop_hooks[(F, 1)] = inner_hook
+
+
+@oset("heartbeat._heartbeat_timeout_loop", ["C08"], [M + "_heartbeat_timeout_loop"],
+      trusted=["asyncio.timeout / Timeout.reschedule / Event.wait as modelled in pyvc/aio.py (deadline semantics)"])
+def timeout_loop(h):
+    if not h.symbolic:
+        from replay.hb_scenarios import run_library
+        return run_library(h)
+    it = h.it
+    w, sock, cfg, mgr, msg, matcher, _ = _manager(h)
+    T = h.attr(cfg, "timeout")
+    ev = h.attr(mgr, "_response_received")
+    install_deadline_loop(h, w, M + "_heartbeat_timeout_loop", T, ev)
     r = h.method(mgr, "_heartbeat_timeout_loop")
     h.oblige("the monitoring task lets no exception out", r.ok)
     evs = it.path.events
